@@ -268,6 +268,25 @@ def cropOp (P : Crop.Perms) (kind : Value.Val) (s : Crop.St Sym) (op : Json) : C
       -- a refused / failed reap may still have synced the object from disk
       let s' := if o.allowIncomplete || o.wait then s else (Crop.isReady s).1
       (s', err (cropErr e))
+  | "reapf" =>
+    let o : Crop.ReapOpts := { allowIncomplete := getBool op "allow_incomplete", wait := getBool op "wait",
+                               cleanUp := (op.getObjValAs? Bool "clean_up").toOption }
+    let k : Crop.FarmerKind := match getStr op "kind" with
+      | "runner" => .runner | "harvester" => .harvester | "sampler" => .sampler | _ => .raw
+    let env : Crop.Env := { labelFails := getBool op "label_fails", deliverFails := getBool op "deliver_fails" }
+    let out := Crop.reapFarmer P (symNanLike kind) k env s o
+    let s' := match out.res with
+      | .error (.gather _) => if o.allowIncomplete || o.wait then s else (Crop.isReady s).1
+      | _ => out.st
+    (s', Json.mkObj [("res", match out.res with
+        | .ok _ => Json.str "ok"
+        | .error (.gather e) => Json.str (if e == .notReady then "notReady" else "fail")
+        | .error .label => Json.str "fail"
+        | .error .deliver => Json.str "fail"),
+      ("stage", match out.res with
+        | .ok _ => Json.str "none" | .error (.gather _) => Json.str "gather"
+        | .error .label => Json.str "label" | .error .deliver => Json.str "deliver"),
+      ("delivered", toJson out.delivered)])
   | o => (s, err s!"bad-op {o}")
 
 def opCrop (j : Json) : Json :=
